@@ -15,7 +15,8 @@ stack node vocabulary (every node builds one dataset object of the repository, o
     {"k": "subset", "indices": [...], "child": node}               KDSubset
     {"k": "shuffle", "seed": s, "child": node} / {"k": "repeat", "times": r, "child": node} / {"k": "pass", "child": node}
     {"k": "concat", "children": [node...]}                         KDConcatDataset
-top  {"k": "mode", "mode": "x"|..., "return_ctx": bool, "cform": "compose"|"single"|"wrapper", "child": node}
+top  {"k": "bare", "mode": "x", "child": node}    the stack WITHOUT ModeWrapper behind a harness adapter serving getitem_x
+     {"k": "mode", "mode": "x"|..., "return_ctx": bool, "cform": "compose"|"single"|"wrapper", "child": node}
      {"k": "interleaved", "batch_size": B, "children": [mode-node...]}   InterleavedSampler(...).dataset
 collator nodes   {"c": "draw"} harness collator publishing its draw | {"c": "mix", "kw": {...}} KDMixCollator
                  {"c": "compose", "members": [cnode...], "mode": m} KDComposeCollator / {"c": "wrapper", "member": cnode, "mode": m}
@@ -90,6 +91,27 @@ class Root(KDDataset):
 
     def getshape_class(self):
         return (N_CLASSES,)
+
+
+class Bare(torch.utils.data.Dataset):
+    """what a user writes who feeds a KD stack to a DataLoader without ModeWrapper: serves stack.getitem_x(i), hands the
+    stack's own worker_init_fn / collators on (no seeding logic of its own)"""
+
+    def __init__(self, stack):
+        self.stack = stack
+
+    def __len__(self):
+        return len(self.stack)
+
+    def __getitem__(self, idx):
+        return self.stack.getitem_x(idx)
+
+    def worker_init_fn(self, rank, **kwargs):
+        self.stack.worker_init_fn(rank, **kwargs)
+
+    @property
+    def collators(self):
+        return self.stack.collators
 
 
 class PassWrapper(KDWrapper):
@@ -333,7 +355,9 @@ def _build_dataset(node, cache):
     k = node["k"]
     if k == "root":
         cols = [build_collator(c) for c in node.get("collators", [])]
-        return Root(node["n"], node["T"], node["data_seed"], onehot=node.get("onehot", False), collators=cols or None)
+        root = Root(node["n"], node["T"], node["data_seed"], onehot=node.get("onehot", False), collators=cols or None)
+        cache.setdefault("__roots__", []).append(root)
+        return root
     if k == "concat":
         return KDConcatDataset([build_dataset(ch, cache) for ch in node["children"]])
     child = build_dataset(node["child"], cache)
@@ -378,11 +402,19 @@ def _build_dataset(node, cache):
     raise ValueError(k)
 
 
-def _collate_for(ds, node, ship=False):
-    """the collate function a user hands to the DataLoader for this ModeWrapper (from the root's registered collators)"""
+def _collate_for(ds, node, ship=False, roots=()):
+    """the collate function a user hands to the DataLoader for this ModeWrapper (from the root's registered collators;
+    "collate_roots": from the collators registered on every member root - a KDConcatDataset itself reports none)"""
     from kappadata.collators import KDComposeCollator
     from kappadata.collators.base.kd_single_collator_wrapper import KDSingleCollatorWrapper
-    cols = ds.collators
+    if node.get("collate_roots"):
+        cols = []
+        for r in _roots_below(ds, roots):
+            for c in r.collators:
+                if not any(c is x for x in cols):
+                    cols.append(c)
+    else:
+        cols = ds.collators
     inner = None
     if len(cols) > 0:
         cform = node.get("cform", "compose")
@@ -400,6 +432,24 @@ def _collate_for(ds, node, ship=False):
     return inner
 
 
+def _roots_below(ds, roots):
+    """those of the built harness roots that are reachable from ds (in building order)"""
+    seen, todo, found = set(), [ds], set()
+    while todo:
+        o = todo.pop()
+        if id(o) in seen:
+            continue
+        seen.add(id(o))
+        if isinstance(o, Root):
+            found.add(id(o))
+            continue
+        for name in ("dataset", "stack"):
+            if name in vars(o):
+                todo.append(vars(o)[name])
+        todo.extend(vars(o).get("datasets", []))
+    return [r for r in roots if id(r) in found]
+
+
 class Built:
     """a built stack: `dataset` (what the DataLoader gets), `collate` (collate_fn or None), for interleaved stacks the
     sampler; `hook_kwargs` = keyword arguments the worker hook needs (schedules)"""
@@ -415,14 +465,17 @@ def build_stack(top, ship=False):
     cache = {}
     if top["k"] == "mode":
         ds = ModeWrapper(build_dataset(top["child"], cache), mode=top["mode"], return_ctx=top.get("return_ctx", False))
-        return Built(ds, _collate_for(ds, top, ship))
+        return Built(ds, _collate_for(ds, top, ship, cache.get("__roots__", ())))
+    if top["k"] == "bare":      # no ModeWrapper on top
+        ds = Bare(build_dataset(top["child"], cache))
+        return Built(ds, _collate_for(ds, top, ship, cache.get("__roots__", ())))
     if top["k"] == "interleaved":
         from torch.utils.data import SequentialSampler
         from kappadata.samplers.interleaved_sampler import InterleavedSampler, InterleavedSamplerConfig
         parts = []
         for ch in top["children"]:
             ds = ModeWrapper(build_dataset(ch["child"], cache), mode=ch["mode"], return_ctx=ch.get("return_ctx", False))
-            parts.append((ds, _collate_for(ds, ch, ship)))
+            parts.append((ds, _collate_for(ds, ch, ship, cache.get("__roots__", ()))))
         B = top["batch_size"]
         sampler = InterleavedSampler(
             main_sampler=SequentialSampler(parts[0][0]), batch_size=B, epochs=top.get("epochs", 1), drop_last=False,
@@ -528,7 +581,7 @@ def blame_stale(ds, path, stale_paths, hook_kwargs):
     entry = next((e for e in entries if e.path == path), None)
     if entry is None:
         return "unattributed"
-    chain = [o for o in entry.chain if _reseedable(o)]
+    chain = [o for o in entry.chain if _reseedable(o) and not isinstance(o, Bare)]     # the harness adapter only forwards
     if not chain:
         return "unattributed"
 
